@@ -573,6 +573,42 @@ func checkC11(e *Env, r *Report) {
 		}
 		recs = append(recs, map[string]any{"ev": "sort", "id": "sort:mixed:" + strings.Join(ids, " | "), "results": results, "resorted": resorted})
 	}
+	// the known path prefixes themselves (the node, not something under it) next to paths of the same
+	// directory that belong to another group: every triple, in all six orders
+	prefixRules := []string{}
+	for _, pfx := range []string{"@{exec_path}", "@{sh_path}", "@{coreutils_path}", "@{open_path}", "@{bin}", "@{lib}", "/opt", "/usr/share", "/etc", "/var", "/boot", "/home", "@{HOME}",
+		"@{user_cache_dirs}", "@{user_config_dirs}", "@{user_share_dirs}", "/tmp", "@{tmp}", "/dev/shm", "@{run}", "@{sys}", "@{PROC}", "/dev"} {
+		prefixRules = append(prefixRules, pfx+" r,")
+	}
+	prefixRules = append(prefixRules, "/dev/null rw,", "/usr/lib/a r,", "/vmlinuz r,", "/srv/a r,", "/ r,", "/optional/a r,", "/dev/shm/a rw,", "/etc/a r,")
+	nTriples := 0
+	for i := 0; i < len(prefixRules); i++ {
+		for j := i + 1; j < len(prefixRules); j++ {
+			for k := j + 1; k < len(prefixRules); k++ {
+				if e.Tier != "thorough" && (i*31+j*17+k*7+int(e.Seed))%3 != 0 {
+					continue // quick: a seeded third of the triples
+				}
+				ts := []string{prefixRules[i], prefixRules[j], prefixRules[k]}
+				results := [][]string{}
+				resorted := [][]string{}
+				for _, p := range permutations(3) {
+					rs := cloneRules([]string{ts[p[0]], ts[p[1]], ts[p[2]]}).Sort()
+					out, out2 := []string{}, []string{}
+					for _, x := range rs {
+						out = append(out, ruleIdentity(x))
+					}
+					for _, x := range rs.Sort() {
+						out2 = append(out2, ruleIdentity(x))
+					}
+					results = append(results, out)
+					resorted = append(resorted, out2)
+				}
+				recs = append(recs, map[string]any{"ev": "sort", "id": "sort:prefix:" + strings.Join(ts, " | "), "results": results, "resorted": resorted})
+				nTriples++
+			}
+		}
+	}
+	r.Coverage["prefix_triples_sorted"] = nTriples
 	// the shipped corpus: sorting a paragraph of a shipped profile gives the same list whatever order it is given in
 	ncorp, _ := corpusParagraphs(e, r, rng, func(id string, mk func() aa.Rules) {
 		defer func() {
